@@ -157,6 +157,13 @@ func scenarios(prop, tier string) []*Scenario {
 		// storage before the branch is trimmed)
 		r = append(r, &Scenario{Name: "genesis/mark-after-prune-depth-3", Cfg: hdr.Config{MaxBranchDepth: 2}, N: pick(3, 4), Marks: 1, M: 1, Grows: 1, GrowBy: 4,
 			Maint: []hdr.Op{{K: "cleand", D: 3}, {K: "reloadd", D: 3}}, Slots: []string{"a", "H"}})
+		// two prunes with growth in between on one instance: the header file that holds the prune
+		// boundary is rewritten by the second Clean after it was read for the lookups that follow
+		// the first (what was read from storage once must not be what is answered later)
+		r = append(r, &Scenario{Name: "genesis/two-prunes-depth-2", Cfg: hdr.Config{MaxBranchDepth: 1}, N: pick(5, 6), M: 2,
+			Maint: []hdr.Op{{K: "cleand", D: 2}}, Slots: []string{"a", "H"}, OnlyTipParents: 2})
+		r = append(r, &Scenario{Name: "genesis/grow-prune-grow-prune-depth-2", Cfg: hdr.Config{MaxBranchDepth: 1}, N: 2, M: 2, Grows: 2, GrowBy: 4,
+			Maint: []hdr.Op{{K: "cleand", D: 2}}, Slots: []string{"a", "H"}, OnlyTipParents: 2})
 		for _, s := range r {
 			s.oracles = []oracle{oracleC09}
 			// lookups are also made after every operation of the history, not only in the state under
@@ -278,6 +285,16 @@ func scenarios(prop, tier string) []*Scenario {
 		// order of the branch list matters to the sweep that removes descendants
 		r = append(r, &Scenario{Name: "genesis/two-marks-nested-forks", Cfg: hdr.Config{MaxBranchDepth: 144}, N: 6, Marks: 2, MarkOnlyKnown: true,
 			Slots: []string{"a", "b"}})
+		// a first start on empty storage (through Load, as in production) with a configured list that
+		// repeats a hash, or holds two: configured hashes are unmarked like any other, further hashes
+		// are marked and unmarked, and every instance of the history is given the same configuration
+		// value - what one instance does with the list it was handed must not reach the next one
+		r = append(r,
+			&Scenario{Name: "initload/configured-twice+unmark", Cfg: hdr.Config{MaxBranchDepth: 144, InitLoad: true, Invalid: []string{"G/a/a", "G/a/a"}},
+				N: pick(3, 4), Marks: 2, M: 1, Maint: []hdr.Op{opReload}, Slots: []string{"a", "H"}, UnmarkConfigured: true},
+			&Scenario{Name: "initload/configured-two+unmark+mark+unmark+restart", Cfg: hdr.Config{MaxBranchDepth: 144, InitLoad: true, Invalid: []string{"G/a/a", "G/a/b"}},
+				N: pick(3, 4), Marks: 3, M: 1, Maint: []hdr.Op{opReload}, Slots: []string{"a", "b"}, UnmarkConfigured: true, OnlyTipParents: 2},
+		)
 		for _, s := range r {
 			s.oracles = []oracle{oracleC17, oracleC08verdict}
 		}
